@@ -2,6 +2,7 @@ package main
 
 import (
 	"fmt"
+	"reflect"
 	"strings"
 
 	"github.com/krotik/ecal/interpreter"
@@ -18,6 +19,7 @@ type c13Op struct {
 }
 
 type c13Plan struct {
+	RefAfter bool            `json:"reference_after,omitempty"` // the sequential reference results are computed after the concurrent phase
 	Corpus []string          `json:"corpus"`
 	Files  map[string]string `json:"files,omitempty"`
 	Shared bool              `json:"shared_provider"`
@@ -31,6 +33,9 @@ func init() {
 
 func c13Stmt(r *simrt.RNG, depth int) string {
 	n := r.Intn(9)
+	if r.Bool(0.3) {
+		n = 1000 + r.Intn(1000000) // identifiers this process has most likely never seen
+	}
 	a, b := 1+r.Intn(5), 1+r.Intn(5)
 	switch r.Intn(12) {
 	case 0:
@@ -63,7 +68,26 @@ func c13Stmt(r *simrt.RNG, depth int) string {
 	}
 }
 
+func c13Deep(r *simrt.RNG) string {
+	d := 60 + r.Intn(500)
+	switch r.Intn(4) {
+	case 0:
+		return "deep := " + strings.Repeat("(", d) + "1" + strings.Repeat(")", d)
+	case 1:
+		return "deep := " + strings.Repeat("[", d) + "1" + strings.Repeat("]", d)
+	case 2:
+		return "deep := " + strings.Repeat("{\"a\": ", d) + "1" + strings.Repeat("}", d)
+	default:
+		// (evaluating a nested operator chain is super-linear in ECAL itself: keep it short)
+		d = 20 + d%60
+		return "deep := " + strings.Repeat("1 + (", d) + "1" + strings.Repeat(")", d)
+	}
+}
+
 func c13Text(r *simrt.RNG) string {
+	if r.Bool(0.12) {
+		return c13Deep(r)
+	}
 	n := 1 + r.Intn(4)
 	var parts []string
 	for i := 0; i < n; i++ {
@@ -87,7 +111,7 @@ func c13Text(r *simrt.RNG) string {
 }
 
 func c13Gen(r *simrt.RNG, tier string) interface{} {
-	p := &c13Plan{Shared: r.Bool(0.5)}
+	p := &c13Plan{Shared: r.Bool(0.5), RefAfter: r.Bool(0.4)}
 	p.Files = map[string]string{"lib.ecal": "func twice(x) {\n    if x > 0 {\n        return {\"v\": x * 2}.v\n    }\n    return 0\n}\n"}
 	nt := 3 + r.Intn(6)
 	for i := 0; i < nt; i++ {
@@ -186,17 +210,132 @@ func c13Do(op c13Op, p *c13Plan, erp *interpreter.ECALRuntimeProvider) (result s
 		if err != nil {
 			return "error: " + err.Error()
 		}
-		return "tree: " + ast.String()
+		return "tree: " + c13Digest(ast)
 	}
-	res, err := loadProgram(erp, "c13", text, newGlobalScope())
+	ast, err := parser.ParseWithRuntime("c13", text, erp)
+	if err != nil {
+		return "eval-error: " + err.Error()
+	}
+	if c13Keep != nil {
+		*c13Keep = append(*c13Keep, ast)
+	}
+	if err := ast.Runtime.Validate(); err != nil {
+		return "eval-error: " + err.Error()
+	}
+	res, err := ast.Runtime.Eval(newGlobalScope(), make(map[string]interface{}), erp.NewThreadID())
 	if err != nil {
 		return "eval-error: " + err.Error()
 	}
 	return "value: " + fmt.Sprint(res)
 }
 
+// c13Digest renders a tree compactly (kind, token value, children) without going
+// through the instrumented pretty printer (deep trees make that quadratic).
+func c13Digest(n *parser.ASTNode) string {
+	var b strings.Builder
+	var h uint64 = 1469598103934665603
+	nodes := 0
+	var walk func(n *parser.ASTNode, depth int)
+	walk = func(n *parser.ASTNode, depth int) {
+		if n == nil {
+			b.WriteString("<nil>")
+			return
+		}
+		nodes++
+		val := ""
+		if n.Token != nil {
+			val = n.Token.Val
+		}
+		for _, c := range n.Name + "\x00" + val + "\x01" {
+			h = (h ^ uint64(c)) * 1099511628211
+		}
+		h = (h ^ uint64(len(n.Children)+depth*31)) * 1099511628211
+		if b.Len() < 600 {
+			fmt.Fprintf(&b, "%s", n.Name)
+			if val != "" && val != n.Name {
+				fmt.Fprintf(&b, "=%q", val)
+			}
+			if len(n.Children) > 0 {
+				b.WriteString("(")
+			}
+		}
+		for i, c := range n.Children {
+			if i > 0 && b.Len() < 600 {
+				b.WriteString(" ")
+			}
+			walk(c, depth+1)
+		}
+		if len(n.Children) > 0 && b.Len() < 600 {
+			b.WriteString(")")
+		}
+	}
+	walk(n, 0)
+	return fmt.Sprintf("%d nodes, digest %016x: %s", nodes, h, b.String())
+}
+
+// c13Keep collects the trees built with a runtime provider during the concurrent
+// phase (their runtime components must have process-wide unique ids).
+var c13Keep *[]*parser.ASTNode
+
+// instanceID reads the unexported id of a runtime component through reflection
+// ("" if the field cannot be found: then nothing is asserted).
+func instanceID(rt interface{}) string {
+	var find func(v reflect.Value, depth int) string
+	find = func(v reflect.Value, depth int) string {
+		for v.Kind() == reflect.Ptr || v.Kind() == reflect.Interface {
+			if v.IsNil() {
+				return ""
+			}
+			v = v.Elem()
+		}
+		if v.Kind() != reflect.Struct || depth > 4 {
+			return ""
+		}
+		if f := v.FieldByName("instanceID"); f.IsValid() && f.Kind() == reflect.String {
+			return f.String()
+		}
+		for i := 0; i < v.NumField(); i++ {
+			if v.Type().Field(i).Anonymous {
+				if id := find(v.Field(i), depth+1); id != "" {
+					return id
+				}
+			}
+		}
+		return ""
+	}
+	return find(reflect.ValueOf(rt), 0)
+}
+
+func c13CheckIDs(asts []*parser.ASTNode) {
+	seen := map[string]string{}
+	var walk func(n *parser.ASTNode, where string)
+	walk = func(n *parser.ASTNode, where string) {
+		if n == nil {
+			return
+		}
+		if n.Runtime != nil {
+			if id := instanceID(n.Runtime); id == "" {
+				simrt.Count("instance_id_unreadable")
+			} else {
+				simrt.Count("instance_ids_checked")
+				if prev, dup := seen[id]; dup {
+					simrt.Fail("oracle:runtime-component-id", "duplicate-instance-id",
+						"two runtime components built by concurrent parses carry the same instance id %s (%s and %s node %s)", id, prev, where, n.Name)
+				}
+				seen[id] = where + "/" + n.Name
+			}
+		}
+		for _, c := range n.Children {
+			walk(c, where)
+		}
+	}
+	for i, a := range asts {
+		walk(a, fmt.Sprintf("tree%d", i))
+	}
+}
+
 func c13Run(p *c13Plan) {
-	parser.VerifResetGrammar()
+
 	mk := func() *interpreter.ECALRuntimeProvider {
 		erp, _ := newProvider(1, p.Files)
 		return erp
@@ -204,12 +343,17 @@ func c13Run(p *c13Plan) {
 	refErp := mk()
 	// reference: every call executed alone (before any other task exists)
 	ref := map[c13Op]string{}
-	for _, ops := range p.Tasks {
-		for _, op := range ops {
-			if _, ok := ref[op]; !ok {
-				ref[op] = c13Do(op, p, refErp)
+	computeRef := func() {
+		for _, ops := range p.Tasks {
+			for _, op := range ops {
+				if _, ok := ref[op]; !ok {
+					ref[op] = c13Do(op, p, refErp)
+				}
 			}
 		}
+	}
+	if !p.RefAfter {
+		computeRef()
 	}
 	var shared *interpreter.ECALRuntimeProvider
 	if p.Shared {
@@ -223,14 +367,25 @@ func c13Run(p *c13Plan) {
 			erps[i] = mk()
 		}
 	}
+	results := make([][]string, len(p.Tasks))
+	for i := range results {
+		results[i] = make([]string, len(p.Tasks[i]))
+	}
+	var kept []*parser.ASTNode
+	c13Keep = &kept
+	defer func() { c13Keep = nil }()
 	var wg simsync.WaitGroup
 	for ti, ops := range p.Tasks {
 		ti, ops := ti, ops
 		wg.Add(1)
 		simrt.Go(fmt.Sprintf("parser%d", ti), func() {
 			defer wg.Done()
-			for _, op := range ops {
+			for oi, op := range ops {
 				got := c13Do(op, p, erps[ti])
+				if p.RefAfter {
+					results[ti][oi] = got
+					continue
+				}
 				if got != ref[op] {
 					kind := "result-differs/" + op.Kind
 					simrt.Fail("oracle:parse-not-reentrant", kind,
@@ -241,6 +396,22 @@ func c13Run(p *c13Plan) {
 		})
 	}
 	wg.Wait()
+	c13Keep = nil
+	c13CheckIDs(kept)
+	if p.RefAfter {
+		// the same calls executed alone, afterwards (texts with identifiers the process
+		// has never lexed are thus met first by the concurrent phase)
+		computeRef()
+		for ti, ops := range p.Tasks {
+			for oi, op := range ops {
+				if results[ti][oi] != ref[op] {
+					simrt.Fail("oracle:parse-not-reentrant", "result-differs/"+op.Kind,
+						"%s of corpus text %d gave a different result when run concurrently.\n--- text:\n%s\n--- alone (afterwards):\n%s\n--- concurrent (task %d):\n%s",
+						op.Kind, op.Text, p.Corpus[op.Text], clip(ref[op]), ti, clip(results[ti][oi]))
+				}
+			}
+		}
+	}
 	// afterwards the grammar must still be intact: parse everything once more
 	again := map[c13Op]bool{}
 	var order []c13Op
